@@ -452,10 +452,146 @@ class AdaptedBisection1D(FunctionContract):
         return (bool(abs(freq[k] - q[k]) > 3.0 / N), {"model": "hem", "state": k - o, "share_of_the_uniform_grid": float(freq[k]), "target": float(q[k])})
 
 
-UNITS = [BinarySearchTreeSampler(), HuffmanSampler(), AliasSampler(), InversionSampler(), InversionOverTheStatesManager(), AdaptedBisection1D()]
+class CellBoundariesMonotone(Lemma):
+    """on a strictly increasing axis the cell boundaries are ordered: cell_lo(i) <= cell_hi(j) for 0 <= i <= j <= n - 1
+    (cell_lo(i) <= x_i <= x_j <= cell_hi(j)); used instance-wise by the bisection contracts"""
+    prop = "C02"
+    name = "lemma:cell-boundaries-monotone"
+
+    @staticmethod
+    def statement(ax, i, j):
+        from contracts.c01 import cell_lo, cell_hi
+        return Implies(And(0 <= i, i <= j, j <= ax.length - 1), cell_lo(ax, i) <= cell_hi(ax, j))
+
+    def prove(self, vc, case):
+        from contracts.c01 import wf_grid
+        grid, ax, h, o = wf_grid(vc)            # quantified strict monotonicity (C13's postcondition, transitive form)
+        i, j = vc.int("i"), vc.int("j")
+        vc.check(self.name + "::cell_lo(i)<=cell_hi(j)", self.statement(ax, i, j))
+
+
+class AdaptedBisectionBucket2D(FunctionContract):
+    """BinarySearchTreeAdapted.sample_one_bucket (real body, d = 2, two axes of SYMBOLIC length that may differ, abstract
+    additive rectangle mass M): the k-d bisection `while any(l != r ...)` under an inductive invariant.  With OFF(box) the
+    mass of everything the bisection tree puts BEFORE a box (defined along the tree: the left child starts where its parent
+    starts, the right child after the left child's mass), for the current box:
+        bucket.l_k <= l_k <= r_k <= bucket.r_k,   current_p * lambda = u' * lambda - OFF(box),   0 < current_p,
+        current_p * lambda <= M(box)
+    so that at exit the returned state c (a cell of the bucket) satisfies OFF(c) < u' lambda <= OFF(c) + M(cell(c)): OFF
+    depends on the cell only, hence every state of the bucket is returned exactly on a u-interval of length
+    M(cell) / lambda.  The additivity of M along an axis is C12's contract (assumed here, instance by instance)."""
+    prop = "C02"
+    target = V + "binarysearchtreeadapted:BinarySearchTreeAdapted.sample_one_bucket"
+    name = "BinarySearchTreeAdapted.sample_one_bucket[d=2]"
+    cases = ("unit intensity", "symbolic intensity")
+
+    def __init__(self):
+        from pyvc.interp import LoopSpec
+        from contracts.c01 import cell_lo, cell_hi
+        MB = z3.Function("M_rectangle", *([z3.RealSort()] * 5))
+        OFFF = z3.Function("OFF_box", *([z3.IntSort()] * 4 + [z3.RealSort()]))
+        from pyvc.sym import as_int_term
+        self.M = lambda a, b: Sym(MB(*[as_real_term(lift(x)) for x in (a[0], a[1], b[0], b[1])]), "r")
+        self.OFF = lambda l0, r0, l1, r1: Sym(OFFF(*[as_int_term(lift(x)) for x in (l0, r0, l1, r1)]), "r")
+
+        def box_mass(g, box):
+            (l0, r0), (l1, r1) = box
+            a0, a1 = g["axes"]
+            return self.M((cell_lo(a0, l0), cell_lo(a1, l1)), (cell_hi(a0, r0), cell_hi(a1, r1)))
+        self.box_mass = box_mass
+
+        def inv(L, g):
+            (l0, r0), (l1, r1) = L.result
+            (L0, R0), (L1, R1) = g["bucket"]
+            lam, u = g["lam"], g["u"]
+            return And(L0 <= l0, l0 <= r0, r0 <= R0, L1 <= l1, l1 <= r1, r1 <= R1,
+                       L.current_probability * lam == u * lam - self.OFF(l0, r0, l1, r1),
+                       L.current_probability > 0, L.current_probability * lam <= box_mass(g, L.result))
+
+        def h_result(path, cur):
+            return [tuple(path.fresh(f"box{k}{e}", "i") for e in "lr") for k in range(2)]
+        self.loops = {0: LoopSpec(inv, decreases=lambda L: (L.result[0][1] - L.result[0][0]) + (L.result[1][1] - L.result[1][0]),
+                                  havoc={"result": h_result})}
+
+        def after_p(L, vc):
+            # the split just made on axis k: parent box = result with (left, right) on axis k; children (left, middle) and
+            # (middle + 1, right).  Additivity of the rectangle mass along the axis (C12) and the definition of OFF.
+            g = vc.ghost
+            k, left, right, middle = L.k, L.left, L.right, L.middle
+            other = L.result[1 - k]
+            mk = lambda rng: [rng, other] if k == 0 else [other, rng]
+            parent, lchild, rchild = mk((left, right)), mk((left, middle)), mk((middle + 1, right))
+            vc.assume(Implies(middle < right, box_mass(g, parent) == box_mass(g, lchild) + box_mass(g, rchild)))
+            vc.assume(And(box_mass(g, lchild) >= 0, box_mass(g, rchild) >= 0))
+            flat = lambda b: (b[0][0], b[0][1], b[1][0], b[1][1])
+            vc.assume(self.OFF(*flat(lchild)) == self.OFF(*flat(parent)))
+            vc.assume(self.OFF(*flat(rchild)) == self.OFF(*flat(parent)) + box_mass(g, lchild))
+        def before_mass(L, vc):
+            # instances of lemma cell-boundaries-monotone at the box about to be measured (requires of the mass: a <= b)
+            g = vc.ghost
+            for k_, a_ in enumerate(g["axes"]):
+                l_, r_ = L.result[k_]
+                vc.assume(CellBoundariesMonotone.statement(a_, l_, r_))
+        self.hints = {"p": after_p, "b_cc": before_mass}
+
+    def configure(self, interp):
+        pass
+
+    def setup(self, vc, case):
+        from contracts.c01 import wf_grid
+        from pyvc.lib import Model
+        from pyvc import ctx
+        # quantifier-free: the ordering of the cell boundaries enters through instances of lemma cell-boundaries-monotone
+        grid, ax, h, o = wf_grid(vc, d=2, quantified=False)
+        ax1 = vc.seq("axis_of_coordinate1", "r", min_len=3)
+        n = ax.length
+        vc.assume(And(ax1.length == n, ax1.raw(o) == 0))
+        axes = [ax, ax1]
+        grid.fields["axes"] = axes
+        bucket = [tuple(vc.ints(f"bucket{k}", 2)) for k in range(2)]
+        vc.assume(And(*[And(0 <= l, l <= r, r <= n - 1) for (l, r) in bucket]))
+        lam, u = (1.0 if case == "unit intensity" else vc.real("intensity")), vc.real("probability_within_the_bucket")
+        g = vc.ghost
+        g.update(axes=axes, bucket=bucket, lam=lam, u=u, o=o)
+        vc.assume(And(lam > 0, u > 0, u * lam <= self.box_mass(g, bucket), self.OFF(bucket[0][0], bucket[0][1], bucket[1][0], bucket[1][1]) == 0))
+
+        def mass(interp, a, b, indices=None):
+            a, b = tuple(a), tuple(b)
+            ctx.PATH.check("sample_one_bucket -> model.mass::requires(a<=b)", And(*[x <= y for x, y in zip(a, b)]))
+            return self.M(a, b)
+        model = vc.obj("rpylib.model.levycopulamodel:LevyCopulaModel", mass=Model(mass, "abstract-rectangle-mass"))
+        smp = vc.obj(V + "binarysearchtreeadapted:BinarySearchTreeAdapted", model=model, grid=grid, intensity_of_jumps=lam)
+        return dict(self=smp, coordinates=[bucket[0], bucket[1]], probability=u)
+
+    def ensures(self, result, self_=None, coordinates=None, probability=None):
+        from pyvc import ctx
+        g = ctx.PATH.ghost
+        o, lam, u = g["o"], g["lam"], g["u"]
+        ok = isinstance(result, tuple) and len(result) == 2
+        if not ok:
+            return {"two-coordinates": False}
+        c = [result[0] + o, result[1] + o]
+        (L0, R0), (L1, R1) = g["bucket"]
+        cell = [(c[0], c[0]), (c[1], c[1])]
+        off = self.OFF(c[0], c[0], c[1], c[1])
+        return {"a-state-of-the-bucket": And(L0 <= c[0], c[0] <= R0, L1 <= c[1], c[1] <= R1),
+                "state-exactly-on-a-u-interval-of-length-mass-of-its-cell-over-lambda": And(off < u * lam, u * lam <= off + self.box_mass(g, cell))}
+
+    def replay(self, model, clause, case):
+        r = FactoryBattery().run("quick", 0)
+        hit = [v for v in r["violations"] if "BINARYSEARCHTREEADAPTED" in json_str(v)]
+        return (bool(hit), hit[0]["witness"] if hit else {})
+
+
+def json_str(v):
+    import json
+    return json.dumps(v, default=str)
+
+
+UNITS = [BinarySearchTreeSampler(), HuffmanSampler(), AliasSampler(), InversionSampler(), InversionOverTheStatesManager(), AdaptedBisection1D(), CellBoundariesMonotone(), AdaptedBisectionBucket2D()]
 ASSUMPTIONS = ["A1: floats are mathematical reals (the alias method's comment about p = 1.0 arriving as 0.999999 is a floating-point concern outside this model)",
                "the number of states is enumerated (K = 2, 3, 4, with and without zero entries): complete in the probabilities and in the uniform, bounded in K",
-               "the table method (32 random bits) and the adapted bisection samplers are covered only by the bounded native battery"]
+               "the table method (32 random bits) and the bucket selection of the n-d adapted sampler are covered only by the bounded native battery; the 1-d adapted sampler and the k-d bisection of a bucket (d = 2) are proved for axes of symbolic length over an abstract additive (rectangle) mass (A6 / C12)"]
 TRUSTED_BASE = ["z3 5.1 (LRA)", "pyvc interpreter + numpy / deque / bisect / sort models"]
 
 
